@@ -27,9 +27,10 @@ theorem step_ret (code : Code) (lim : Limits) (s : VMState) (sp : Span) :
     step code lim s .ret sp = .next { s with calls := s.calls.tail } := rfl
 
 theorem step_setTry (code : Code) (lim : Limits) (s : VMState) (fn : String) (l : Nat) (sp : Span) :
-    step code lim s (.setTry fn l) sp = .next (advance { s with handlers := ⟨fn, l⟩ :: s.handlers }) := rfl
+    step code lim s (.setTry fn l) sp
+      = .next (advance { s with handlers := ⟨⟨fn, l⟩, s.calls.length, s.stack.length, s.mp⟩ :: s.handlers }) := rfl
 
-theorem step_popTry (code : Code) (lim : Limits) (s : VMState) (sp : Span) (h : Frame) (rest : List Frame)
+theorem step_popTry (code : Code) (lim : Limits) (s : VMState) (sp : Span) (h : Handler) (rest : List Handler)
     (hh : s.handlers = h :: rest) :
     step code lim s .popTry sp = .next (advance { s with handlers := rest }) := by
   simp [step, hh]
